@@ -759,9 +759,8 @@ pub fn dom_args(win: bool, tier: &str, seed: u64) -> Vec<Vec<u8>> {
         if t {
             counts.extend([126usize, 129, 255, 257]);
         }
-        if t {
-            counts.extend([32767usize, 32768, 65535, 65536, 65537]);
-        }
+        // (the chains around 2^15 and 2^16 components are `deep_arguments()`: one clause of the C04 oracle
+        // runs them against a few bases; crossed with every base they are gigabytes of op lines)
         for n in counts {
             let mut down: Vec<u8> = Vec::new();
             for _ in 0..n {
